@@ -17,6 +17,8 @@
 
 #include <nix/Platform.hpp>
 
+#include <stdexcept>
+
 namespace nix {
 
 class NIXAPI DataSet {
@@ -88,6 +90,11 @@ void DataSet::setData(const T &value)
 
     DataType dtype = hydra.element_data_type();
     NDSize shape = hydra.shape();
+
+    // a value whose elements cannot be stored is refused before the data is resized to its shape
+    if (!data_type_is_convertible(dtype, dataType())) {
+        throw std::invalid_argument("DataSet::setData: the element type of the value cannot be converted to the data type of the data");
+    }
 
     dataExtent(shape);
     setData(dtype, hydra.data(), shape, {});
